@@ -148,9 +148,18 @@ impl<'a> SchemaDiscoverer<'a> {
         let mut cursor = Cursor::new(self.data);
         cursor.seek(SeekFrom::Start(DbcHeader::SIZE as u64))?;
 
+        // The counts and sizes come straight from the file: pre-allocate no more records
+        // than the data could hold, and size a record only once it is known to be there
+        let record_size = self.header.record_size as usize;
+        let max_records = self.data.len() / record_size.max(1);
+
         // Fetch raw record data for analysis
-        let mut record_data = Vec::with_capacity(records_to_analyze as usize);
+        let mut record_data = Vec::with_capacity((records_to_analyze as usize).min(max_records));
         for _ in 0..records_to_analyze {
+            let remaining = self.data.len().saturating_sub(cursor.position() as usize);
+            if record_size > remaining {
+                return Err(std::io::Error::from(std::io::ErrorKind::UnexpectedEof).into());
+            }
             let mut record = Vec::with_capacity(self.header.record_size as usize);
             let mut buffer = vec![0u8; self.header.record_size as usize];
             cursor.read_exact(&mut buffer)?;
@@ -190,12 +199,13 @@ impl<'a> SchemaDiscoverer<'a> {
 
     /// Analyze all fields to determine their types
     fn analyze_fields(&self, record_data: &[Vec<u32>]) -> Result<Vec<DiscoveredField>> {
-        let mut discovered_fields = Vec::with_capacity(self.header.field_count as usize);
-
         // If no records to analyze, return empty fields
         if record_data.is_empty() {
-            return Ok(discovered_fields);
+            return Ok(Vec::new());
         }
+
+        // Every analyzed record holds `field_count` values that were really read
+        let mut discovered_fields = Vec::with_capacity(self.header.field_count as usize);
 
         // Analyze each field
         for field_index in 0..self.header.field_count as usize {
